@@ -37,6 +37,9 @@ RULE = (
     "file in the scratch cwd other than the CLI's declared report; no canary marker. "
     "Non-trivial = the input names >= 1 dangerous/canary global and parses (or is a corruption "
     "of such an input); distinct = distinct byte strings."
+    ' Also: inputs of 1.3-9 MB through a non-seekable stream, 130-400 levels of nesting, names'
+    ' that are format templates (with an oracle on object reprs in the CLI / JSON output); the'
+    " CLI's report file may only be written by the CLI's own --check-safety run."
 )
 ASSUMPTIONS = [
     "a warm-up run on benign inputs precedes recording, so fickling's own lazy imports are done",
